@@ -13,7 +13,7 @@ CHECKS = {
             "text": _VX + "encoder ops ensure forall z. meaning'(z) == meaning(input ++ z) (so any segmentation / input method gives "
                     "enc(concatenation)); decoder ops refine the byte automaton drun; lemma drun(enc(x)) == (accept, x) for all x. "
                     "Unbounded: all lengths, all segmentations.",
-            "note": "OwningIovec producer/consumer interface, find_stuff_sequence (bounded Kani), AnchoredSlice::components are assumed contracts; see evidence.assumptions"},
+            "note": "OwningIovec producer/consumer interface, find_stuff_sequence (bounded: Kani on all slices <= 72 bytes + native enumeration up to 200 bytes), AnchoredSlice::components are assumed contracts; see evidence.assumptions"},
     "C02": {"engine": "verus", "design_ref": "DESIGN.md 4, 5 (C02)",
             "technique": "Verus contracts: out == enc(X); lemmas no_stuff(enc x), |enc x| bound, split composition",
             "text": _VX + "finish() returns enc(concatenated input) by the meaning contract; pure lemmas prove no FE FD at any position of "
@@ -51,15 +51,16 @@ CHECKS.update({
                     "into the next chunk; Eof only when nothing is left; reported offsets are absolute end positions; terminates, no panic, no "
                     "offset overflow. Tiling of successive calls is a one-step lemma + induction.",
             "note": "assumed: Chain + ByteArena::read_n deliver exactly min(count, available) bytes of carried ++ stream (no hard I/O errors), AnchoredSlice operations act on the exposed bytes, find_stuff_sequence (bounded Kani); found and fixed F1 (block size 0/1)"},
-    "C11": {"engine": "kani", "design_ref": "DESIGN.md 5 (C11), 10.1",
-            "technique": "Kani bounded Hoare-triple harnesses against the Roughtime layout; full-usize-domain harness for the i32::MAX rule",
+    "C11": {"engine": "kani+native", "design_ref": "DESIGN.md 5 (C11), 10.1",
+            "technique": "Kani bounded Hoare-triple harnesses against the Roughtime layout; full-usize-domain harness for the i32::MAX rule; native bounded cross-check of the same triple on long lists",
             "text": _KB + "Layout, emitted == rough_tlv_len, MessageView round trip, stable tie order, new_from_sorted's rejection set, "
                     "Cow variants, one level of nesting; the length rule over ALL usize lengths via a value type with symbolic length.",
-            "note": "BOUNDED: <= 2 pairs x 1-byte values quick (<= 3 x 2 thorough); recording sink instead of OwningIovec/Encoder (arena out of Kani's reach); defects that need many pairs (e.g. an unstable sort, which is stable below ~32 elements) are beyond the bound"},
-    "C12": {"engine": "kani", "design_ref": "DESIGN.md 5 (C12), 10.1",
-            "technique": "Kani bounded harnesses: acceptance <=> format rule on all byte strings up to the bound; accessor agreement / tiling by pointer identity",
+            "note": "BOUNDED: <= 2 pairs x 1-byte values quick (<= 3 x 2 thorough); recording sink instead of OwningIovec/Encoder (arena out of Kani's reach); defects that need many pairs (e.g. an unstable sort, which is stable below ~20 elements) are beyond Kani's bound and are reached only by Engine C, the native bounded cross-check (lists of up to 72 / 300 pairs; bounded, not proof)"},
+    "C12": {"engine": "kani+native", "design_ref": "DESIGN.md 5 (C12), 10.1",
+            "technique": "Kani bounded harnesses: acceptance <=> format rule on all byte strings up to the bound; accessor agreement / tiling by pointer identity; native bounded cross-check of the same triple on headers with many pairs",
             "text": _KB + "new() never panics and accepts exactly the format; values tile the payload; get/iter/tags agree; every index >= N yields "
-                    "None; find returns a value under exactly that tag. A second acceptance harness covers headers with up to 11 (17) pairs.",
+                    "None; find returns a value under exactly that tag. A second acceptance harness covers headers with up to 11 (17) pairs, a third every header of exactly 10 (19) pairs. "
+                    "Engine C (native, bounded, not proof) runs the same triple on headers of up to 72 (300) pairs.",
             "note": "BOUNDED: all byte strings <= 20 bytes quick / 24 thorough for the accessor harnesses; acceptance alone on all strings <= 88 / 136 bytes"},
     "C15": {"engine": "verus+kani", "design_ref": "DESIGN.md 10.8",
             "technique": "Verus contracts on the real generic SlidingDeque<Container> against a trait contract (unbounded); Kani checks the trait contract on Vec/SmallVec and cross-checks each operation",
@@ -75,11 +76,14 @@ CHECKS.update({
                     "the list of live items; 'push of a non-greater key always panics' via an unreachable-marker harness.",
             "note": "BOUNDED: <= 4 physical items quick / 5 thorough; induction over operations is a meta-argument; defects needing >= 5 items are caught only by the thorough tier"},
     "C17": {"engine": "kani+verus", "design_ref": "DESIGN.md 5 (C17), 10.1",
-            "technique": "Kani bounded harness over all reader scripts on read_n_impl; Verus contracts on Encoder/Decoder read_n / encode_read / decode_read",
-            "text": _KB + "read_n_impl under every script of <= 4 steps over {deliver k, Interrupted, EOF, hard error}. The codec wrappers are verified by "
+            "technique": "Verus contract on ByteArena::read_n_impl against a ghost reader script (unbounded) + Verus contracts on Encoder/Decoder read_n / encode_read / decode_read; Kani bounded harness over all reader scripts as second engine with counterexample playback",
+            "text": "Verus proves ByteArena::read_n_impl for EVERY reader script, count and attempt limit against the assumed contract of Read::read "
+                    "(loop invariant: outcome-so-far + simulation of the rest of the script == simulation from the start): at most max_attempts calls, "
+                    "never more than count bytes, stops at EOF / first hard error / full, Ok(n) with exactly the delivered bytes in order when n > 0 or no "
+                    "error pending, Err(last error) otherwise. " + _KB + "read_n_impl under every script of <= 4 steps over {deliver k, Interrupted, EOF, hard error}. The codec wrappers are verified by "
                     "Verus (unbounded) against the assumed ByteArena::read_n contract: failed read => output untouched; Ok(n) => exactly the n bytes read are "
                     "encoded / decoded.",
-            "note": "BOUNDED for the arena half; the unsafe alloc/release wrapper of read_n and arena states are assumed (Kani out of memory on the arena)"},
+            "note": "level stays model_checking because the unsafe alloc/release wrapper ByteArena::read_n around read_n_impl and the arena states are assumed (Kani out of memory on the arena, unsafe outside Verus); Read::read, <[u8]>::fill, io::Error::kind, Option::replace under assumed contracts"},
     "C18": {"engine": "kani", "design_ref": "DESIGN.md 10.9",
             "technique": "Kani harnesses from every state a suspended writer can leave (symbolic sequence, arbitrary non-stable slot, lock held/free); unwind 2 with unwinding assertion",
             "text": "snapshot() completes in one pass of its loop, returns the published pair, never panics and never touches the lock, from EVERY state of "
